@@ -2,20 +2,28 @@
 use crate::report::Report;
 use crate::Ctx;
 
+pub mod c01;
 pub mod c03;
+pub mod c10;
+pub mod c11;
 pub mod c13;
 pub mod c14;
 pub mod c16;
+pub mod c18;
 pub mod common;
 pub mod smoke;
 
 pub fn run(ctx: &Ctx) -> Option<Report> {
     Some(match ctx.prop.as_str() {
         "smoke" => smoke::run(ctx),
+        "C01" => c01::run(ctx),
         "C03" => c03::run(ctx),
+        "C10" => c10::run(ctx),
+        "C11" => c11::run(ctx),
         "C13" => c13::run(ctx),
         "C14" => c14::run(ctx),
         "C16" => c16::run(ctx),
+        "C18" => c18::run(ctx),
         _ => return None,
     })
 }
